@@ -46,3 +46,7 @@ add('C21','model_checking','explicit-state BFS over the real PocketCoreApp with 
  'The raw staked-by-power, per-chain, unstaking-queue and waiting indexes are decoded from the store and compared with the node records in every reachable state up to the depth.',_chain_note)
 add('C22','model_checking','explicit-state BFS over the real PocketCoreApp folding every reported validator update like Tendermint',
  'The consensus set obtained by folding InitChain/EndBlock updates equals the top-N staked unjailed nodes with current power in every reachable state, including MaxValidators changes.',_chain_note)
+add('C11','model_checking','differential explicit-state search: every base history x insertion point x off-chain call on the real app vs a silent replica',
+ 'For every base history up to the depth, every position/phase and every CheckTx / simulate / store-query / custom-query call, the probed replica must report identical block results, validator updates and app hashes.',_chain_note)
+add('C13','model_checking','differential explicit-state search with restarts and old-height reads on the real app vs a silent replica',
+ 'Histories in which state changes follow reads, with node restarts (cold caches) as menu events and queries at older heights inserted at every position; the probed replica must agree with the silent one block by block.',_chain_note+' Dispatch/relay side effects on claims are exercised by the relay checks.')
